@@ -215,20 +215,27 @@ def nonce_oracle(row):
 
 # ------------------------------------------------------------------------------ seed file (b)
 
+def LN(items):
+    """list N literal (typed also when empty)"""
+    return cL(items) if items else "(@nil N)"
+
+
 def utf8(s):
-    return cL([cN(b) for b in s.encode("utf-8")])
+    return LN([cN(b) for b in s.encode("utf-8")])
 
 
 def seed_term(c):
     return "(%s, %s, %s, %s)" % (
-        cL([cN(b) for b in c["seed"]]), utf8(c["pw"]), cL([utf8(t) for t in c["tries"]]),
-        cL(["(%s, %s)" % (cN(m[0]), cN(m[1])) for m in c["muts"]]))
+        LN([cN(b) for b in c["seed"]]), utf8(c["pw"]),
+        cL([utf8(t) for t in c["tries"]]) if c["tries"] else "(@nil (list N))",
+        cL(["(%s, %s)" % (cN(m[0]), cN(m[1])) for m in c["muts"]]) if c["muts"] else "(@nil (N * N))")
 
 
 def fileops_term(c):
     baks = ["(%d%%nat, %s, %s)" % (b, cN(d[0]), cN(d[1])) for b, d in zip(c["baks"], c["bak_desc"])]
     return "mkFcase %s %s %s %s %s %s" % (
-        cB(c["op"] == "change"), cB(not c.get("no_seed_file")), cL(baks), cB(c["old"] == c["new"]),
+        cB(c["op"] == "change"), cB(not c.get("no_seed_file")),
+        cL(baks) if baks else "(@nil (nat * N * N))", cB(c["old"] == c["new"]),
         cB(bool(c.get("wrong_old"))), cN(c.get("phrase_kind", 0)))
 
 
@@ -380,7 +387,7 @@ def run(tier, replay):
             raise vlib.Infra("c12 harness panicked: %s" % r["harness_panic"])
         for me in (0, 1):
             ops, rows = hist_projection(r, me)
-            terms.append("(%s, %s)" % (cB(r["case"].get("test_rng", False)), cL(ops)))
+            terms.append("(%s, %s)" % (cB(r["case"].get("test_rng", False)), cL(ops) if ops else "(@nil op)"))
             meta.append((r, me, rows))
     model = vlib.coq_eval(PROP, "From GW Require Import Secrets.", "run_hist", terms, shard=8) if terms else []
     for (r, me, rows), mrows in zip(meta, model):
@@ -481,8 +488,9 @@ def run(tier, replay):
             rows = harness(binp, wd, "fo%d.jsonl" % j, a, env={"VERIF_SEED": str(seed)})
         ev = parse_trace(trace, fo_dir) if strace_ok else {}
         for r in rows:
-            fo_rows.append(r)
             events_all.append(ev.get(r["id"]) if strace_ok else None)
+            r["id"] = len(fo_rows)          # ids are per harness run: make them unique
+            fo_rows.append(r)
     shutil.rmtree(fo_dir, ignore_errors=True)
     if fo_rows:
         fm = vlib.coq_eval(PROP, "From GW Require Import Secrets.", "run_fileops", [fileops_term(r["case"]) for r in fo_rows], shard=20)
